@@ -77,6 +77,13 @@ def faults(cfg, rng):
 
     def m(name, pos, fn):
         out.append((name, pos, fn))
+
+    def partners(x):
+        """earlier elements a duplicate at position x may collide with: the direct predecessor, the first element, one in between"""
+        js = {x - 1, 0}
+        if x >= 3:
+            js.add(rng.randrange(1, x - 1))
+        return sorted(js)
     for i, b in enumerate(B):
         if len(B) > 1:
             j = (i + 1) % len(B)
@@ -96,20 +103,23 @@ def faults(cfg, rng):
                                ('peripherals', 'port', 'dup-peripheral-port'), ('segments', 'address', 'dup-segment-address'), ('reversers', 'cv', 'dup-reverser-cv')):
             lst = b.get(k) or []
             for x in range(1, len(lst)):
-                m(name, f'{b["id"]}/{lst[x]["id"]}', lambda c, bi=bi, k=k, x=x, field=field: c['boards'][bi][k][x].__setitem__(field, c['boards'][bi][k][x - 1][field]))
+                for j in partners(x):
+                    m(name, f'{b["id"]}/{lst[x]["id"]}~{j}', lambda c, bi=bi, k=k, x=x, j=j, field=field: c['boards'][bi][k][x].__setitem__(field, c['boards'][bi][k][j][field]))
     dccs = all_items(cfg, 'points_dcc', 'signals_dcc')
     for (b, k, a) in dccs:
         for t in cfg['trains'][:2]:
             m('dcc-address-shared-train-accessory', f'{a["id"]}/{t["id"]}', lambda c, p=(B.index(b), k, b[k].index(a)), ti=cfg['trains'].index(t):
               c['trains'][ti].__setitem__('addr', c['boards'][p[0]][p[1]][p[2]]['addr']))
     for x in range(1, len(dccs)):
-        (b1, k1, a1), (b2, k2, a2) = dccs[x], dccs[x - 1]
+      for j in partners(x):
+        (b1, k1, a1), (b2, k2, a2) = dccs[x], dccs[j]
         if k1 == k2:
-            m('dup-dcc-address', f'{a1["id"]}', lambda c, p=(B.index(b1), k1, b1[k1].index(a1)), q=(B.index(b2), k2, b2[k2].index(a2)):
+            m('dup-dcc-address', f'{a1["id"]}~{j}', lambda c, p=(B.index(b1), k1, b1[k1].index(a1)), q=(B.index(b2), k2, b2[k2].index(a2)):
               c['boards'][p[0]][p[1]][p[2]].__setitem__('addr', c['boards'][q[0]][q[1]][q[2]]['addr']))
     for x in range(1, len(cfg['trains'])):
-        m('dup-train-id', cfg['trains'][x]['id'], lambda c, x=x: c['trains'][x].__setitem__('id', c['trains'][x - 1]['id']))
-        m('dup-train-dcc-address', cfg['trains'][x]['id'], lambda c, x=x: c['trains'][x].__setitem__('addr', c['trains'][x - 1]['addr']))
+        for j in partners(x):
+            m('dup-train-id', cfg['trains'][x]['id'] + f'~{j}', lambda c, x=x, j=j: c['trains'][x].__setitem__('id', c['trains'][j]['id']))
+            m('dup-train-dcc-address', cfg['trains'][x]['id'] + f'~{j}', lambda c, x=x, j=j: c['trains'][x].__setitem__('addr', c['trains'][j]['addr']))
     for (b, k, a) in all_items(cfg, 'points_board', 'signals_board', 'peripherals'):
         p = (B.index(b), k, b[k].index(a))
         if len(a['aspects']) > 1:
@@ -148,9 +158,9 @@ def faults(cfg, rng):
         ps = t.get('peripherals') or []
         for pi in range(len(ps)):
             m('function-bit-range', ps[pi]['id'], lambda c, ti=ti, pi=pi: c['trains'][ti]['peripherals'][pi].__setitem__('bit', rng.choice([32, 33, 64, 255])))
-            if pi:
-                m('dup-function-bit', ps[pi]['id'], lambda c, ti=ti, pi=pi: c['trains'][ti]['peripherals'][pi].__setitem__('bit', c['trains'][ti]['peripherals'][pi - 1]['bit']))
-                m('dup-function-id', ps[pi]['id'], lambda c, ti=ti, pi=pi: c['trains'][ti]['peripherals'][pi].__setitem__('id', c['trains'][ti]['peripherals'][pi - 1]['id']))
+            for j in (partners(pi) if pi else []):
+                m('dup-function-bit', ps[pi]['id'] + f'~{j}', lambda c, ti=ti, pi=pi, j=j: c['trains'][ti]['peripherals'][pi].__setitem__('bit', c['trains'][ti]['peripherals'][j]['bit']))
+                m('dup-function-id', ps[pi]['id'] + f'~{j}', lambda c, ti=ti, pi=pi, j=j: c['trains'][ti]['peripherals'][pi].__setitem__('id', c['trains'][ti]['peripherals'][j]['id']))
     for bi, b in enumerate(B):
         m('track-board-not-in-board-file', b['id'], ('drop-from-board-file', bi))
     return out
